@@ -72,8 +72,17 @@ func (e *Emitter) Emit(c Case) {
 	}
 	b, err := json.Marshal(c)
 	if err != nil {
-		fmt.Fprintln(os.Stderr, "marshal:", err)
-		os.Exit(2)
+		// the description holds something json cannot encode (typically a response that still
+		// contains a func or a channel): keep the case, describe it textually, and report it
+		c.Desc = fmt.Sprintf("%v", c.Desc)
+		if c.Fail == "" {
+			c.Fail = "observed value is not JSON-serialisable: " + err.Error()
+		}
+		b, err = json.Marshal(c)
+		if err != nil {
+			fmt.Fprintln(os.Stderr, "marshal:", err)
+			os.Exit(2)
+		}
 	}
 	e.w.Write(b)
 	e.w.WriteByte('\n')
